@@ -159,6 +159,12 @@ func probeSpec(arch, f string) ProgSpec {
 		allow = append(allow, "ld_x2", "st_x2")
 	case "exec_ops":
 		allow = append(allow, "sgpr64")
+	case "vgpr_pressure":
+		// one 1024-work-item group: four wavefronts per SIMD
+		force = append(force, "big_wg")
+		sp := ProgSpec{ID: "probe-" + arch + "-" + f, Arch: arch, Seed: hash64("C02/probe/" + f), Allow: append(allow, "ld_x4", "st_x4"), Force: force, Probe: f,
+			Geo: &Launch{Grid: [3]uint32{1024, 1, 1}, WG: [3]uint16{1024, 1, 1}}}
+		return sp
 	case "waw", "waw_waitcnt":
 		allow = append(allow, "st_x2", "st_x4", "loop_uniform")
 	case "xkernel":
@@ -358,6 +364,7 @@ type runOut struct {
 	// completed, and those among them whose opcode completed nowhere
 	inflight []string
 	suspects []string
+	flags    []string // white-box observations of the child (flags.txt), also after a crash
 }
 
 func (o *orch) runCase(cs Case) runOut {
@@ -365,6 +372,13 @@ func (o *orch) runCase(cs Case) runOut {
 	r := vlib.RunChild(o.scratch, 12*time.Minute, []string{"GOMAXPROCS=2"}, "child", string(b))
 	defer os.RemoveAll(r.Dir)
 	out := runOut{dur: r.Dur}
+	if fb, err := os.ReadFile(filepath.Join(r.Dir, "flags.txt")); err == nil {
+		for _, l := range strings.Split(strings.TrimSpace(string(fb)), "\n") {
+			if l != "" {
+				out.flags = append(out.flags, l)
+			}
+		}
+	}
 	data, err := os.ReadFile(filepath.Join(r.Dir, "result.json"))
 	if err == nil {
 		var res Result
@@ -596,4 +610,39 @@ func readJournal(path string) (inflight, suspects []string) {
 	sort.Strings(inflight)
 	sort.Strings(suspects)
 	return
+}
+
+// vgprOverflowRisk reports whether the program can put more VGPRs on one SIMD
+// lane of the mi300a than the 256 its register file keeps per lane (open
+// finding vgpr-window-overflow): such (program, platform) runs are skipped in
+// the seeded part while the finding is open.
+func vgprOverflowRisk(sp ProgSpec, ps PlatSpec) bool {
+	if ps.GPUType != "mi300a" {
+		return false
+	}
+	prog, err := BuildProgram(sp)
+	if err != nil {
+		return false
+	}
+	cus := 120
+	if ps.Knobs != nil {
+		a, b := 6, 20
+		if ps.Knobs.CUPerSA > 0 {
+			a = ps.Knobs.CUPerSA
+		}
+		if ps.Knobs.NumSA > 0 {
+			b = ps.Knobs.NumSA
+		}
+		cus = a * b
+	}
+	for _, k := range prog.Kernels {
+		n := k.L.numWG()
+		wgs := n[0] * n[1] * n[2]
+		perCU := (wgs + cus - 1) / cus * ((k.L.wgSize() + 63) / 64)
+		perSIMD := (perCU + 3) / 4
+		if perSIMD*k.DeclVGPR > 256 {
+			return true
+		}
+	}
+	return false
 }
